@@ -580,3 +580,32 @@ Proof.
   - pose proof (need_bound (fsize (FStruct tid fields)) (FStruct tid fields) (le_n _)) as B.
     rewrite need_struct in B. lia.
 Qed.
+
+(* field_param: the selected parameter has the field's type, no parameter before it has, and with no
+   parameter of that type there is no match *)
+Lemma field_param_spec t : forall params i k p,
+  field_param t params i = Some (k, p) ->
+  exists j, k = i + j /\ nth_error params j = Some (t, p) /\
+            forall j', j' < j -> forall ty q, nth_error params j' = Some (ty, q) -> ty <> t.
+Proof.
+  induction params as [|[ty q] r IH]; intros i k p H; cbn [field_param] in H; [discriminate|].
+  destruct (ty =? t) eqn:E.
+  - inversion H; subst. apply Nat.eqb_eq in E. subst ty. exists 0. split; [lia|]. split; [reflexivity|].
+    intros j' Hj. lia.
+  - destruct (IH _ _ _ H) as [j [Hk [Hn Hb]]]. exists (S j). split; [lia|]. split; [exact Hn|].
+    intros j' Hj ty' q' Hn'. destruct j' as [|j'].
+    + cbn in Hn'. inversion Hn'; subst. apply Nat.eqb_neq in E. exact E.
+    + cbn in Hn'. eapply Hb; [|exact Hn']. lia.
+Qed.
+
+Lemma field_param_none t : forall params i,
+  field_param t params i = None <-> (forall ty q, In (ty, q) params -> ty <> t).
+Proof.
+  induction params as [|[ty q] r IH]; intros i; cbn [field_param].
+  - split; [intros _ ty q []|reflexivity].
+  - destruct (ty =? t) eqn:E.
+    + split; [discriminate|]. intros H. apply Nat.eqb_eq in E. exfalso. apply (H ty q); [left; reflexivity|exact E].
+    + rewrite IH. apply Nat.eqb_neq in E. split.
+      * intros H ty' q' [Heq|Hin]; [inversion Heq; subst; exact E|eapply H; exact Hin].
+      * intros H ty' q' Hin. eapply H. right. exact Hin.
+Qed.
